@@ -68,7 +68,16 @@ Alpha ==
 SymAlpha ==
   {St("LBX", 0), St("EQU", 1), St("EQU", 2), St("SET", 1), St("SET", 2), St("SETC", 3), St("USE", 0),
    St("SECTION", 0), St("ENDSECTION", 0), St("ENDSECTION", 1), St("ENDSECTION", 2), St("PUBLIC", 0),
-   St("PUSHV", 0), St("POPV", 0), St("ENUM", 0), St("NEXTENUM", 0), St("IF", 0), St("ENDIF", 0), St("EMIT", 1)}
+   St("PUSHV", 0), St("POPV", 0), St("ENUM", 0), St("NEXTENUM", 0), St("IF", 0), St("ENDIF", 0), St("EMIT", 1),
+   St("IFDEF", 0), St("IFNDEF", 0)}
+
+\* EXPECT a: 1 -> 1200;  2 -> 1200,1450;  3 -> 1200,1200;  4 -> 2130,1200;  5 -> 1200,2130   (1200 = unknown instruction:
+\* BAD; 1450 = RESTORE without SAVE; 2130 = "expected error did not occur" itself: DrainIsSubjectToList)
+ExpAlpha ==
+  {St("EXPECT", 1), St("EXPECT", 2), St("EXPECT", 3), St("ENDEXPECT", 0), St("BAD", 0), St("RESTORE", 0), St("UERR", 0),
+   St("IF", 0), St("ENDIF", 0), St("EMIT", 1), St("END", 0)}
+ExpNums(a) == CASE a = 1 -> <<1200>> [] a = 2 -> <<1200, 1450>> [] a = 3 -> <<1200, 1200>> [] a = 4 -> <<2130, 1200>>
+                [] OTHER -> <<1200, 2130>>
 
 Directed ==
   << <<St("MACRO", 0), St("SAVE", 0), St("RESTORE", 0), St("SAVE", 0), St("RESTORE", 0), St("ENDM", 0), St("CALL", 0), St("EMIT", 1)>>,
@@ -94,7 +103,23 @@ Directed ==
        St("SECTION", 0), St("IF", 0), St("ENDSECTION", 0), St("ENDIF", 0), St("SETC", 3), St("EQU", 2)>>,
      <<St("MACRO", 0), St("SECTION", 0), St("LBX", 0), St("ENDSECTION", 0), St("ENDM", 0), St("CALL", 0), St("CALL", 0)>>,
      <<St("EQU", 1), St("SETC", 3), St("SET", 1), St("MACRO", 0), St("IF", 0), St("EQU", 2), St("ENDIF", 0), St("POPV", 0),
-       St("ENDM", 0), St("CALL", 0), St("PUSHV", 0)>> >>
+       St("ENDM", 0), St("CALL", 0), St("PUSHV", 0)>>,
+     \* EXPECT: the second occurrence of an announced message counts; an announcement that is not met is an error of
+     \* ENDEXPECT and does not swallow a later message; a user ERROR is never swallowed
+     <<St("EXPECT", 2), St("BAD", 0), St("BAD", 0), St("UERR", 0), St("ENDEXPECT", 0), St("RESTORE", 0), St("ENDEXPECT", 0)>>,
+     <<St("EXPECT", 3), St("BAD", 0), St("EMIT", 1), St("BAD", 0), St("BAD", 0), St("ENDEXPECT", 0), St("EXPECT", 1)>>,
+     \* DrainIsSubjectToList, both orders; nesting; an EXPECT left open
+     <<St("EXPECT", 4), St("ENDEXPECT", 0), St("EXPECT", 5), St("ENDEXPECT", 0), St("EXPECT", 1), St("EXPECT", 2), St("BAD", 0)>>,
+     \* EXPECT in a macro body / a REPT body (second iteration: nested), in a skipped branch, while a body is recorded
+     <<St("MACRO", 0), St("EXPECT", 1), St("BAD", 0), St("ENDEXPECT", 0), St("ENDM", 0), St("CALL", 0), St("CALL", 0),
+       St("IF", 0), St("EXPECT", 1), St("ENDIF", 0), St("BAD", 0)>>,
+     <<St("REPT", 2), St("EXPECT", 1), St("ENDM", 0), St("BAD", 0), St("ENDEXPECT", 0), St("BAD", 0)>>,
+     \* END: nothing behind it is executed - not in the file, not in the iterations that are left
+     <<St("EMIT", 1), St("END", 0), St("BAD", 0), St("EMIT", 2)>>,
+     <<St("REPT", 2), St("EMIT", 1), St("IF", 1), St("END", 0), St("ENDIF", 0), St("ENDM", 0), St("BAD", 0)>>,
+     \* IFDEF / IFNDEF read the table: before and after the definition, inside a section, a constant and a variable
+     <<St("IFDEF", 0), St("EMIT", 1), St("ENDIF", 0), St("EQU", 1), St("IFDEF", 0), St("EMIT", 2), St("ENDIF", 0),
+       St("SECTION", 0), St("IFNDEF", 0), St("EMIT", 1), St("ENDIF", 0), St("ENDSECTION", 0)>> >>
 
 Opts == [werror |-> FALSE, maxerr |-> 0, suppw |-> FALSE, codeout |-> TRUE, throw |-> FALSE]
 NumGeneric == 1840     \* ELSEIF/ENDIF without IF
@@ -116,10 +141,10 @@ Tx(i) == rec[i]
 NoRecs == <<>>
 
 Init0 == [ca |-> CA!InitM, ab |-> [AB!InitB(1) EXCEPT !.used = [x \in AB!AllSegs |-> FALSE]],
-          mp |-> StartPass(InitMP, 1), cw |-> InitW(FALSE), d |-> DG!PassInit, sy |-> InitSY, en |-> InitEN]
+          mp |-> StartPass(InitMP, 1), cw |-> InitW(FALSE), d |-> DG!PassInit, sy |-> InitSY, en |-> InitEN, au |-> InitAU]
 Init == /\ l = 1 /\ prog = <<>> /\ rec = <<>> /\ s = Init0 /\ cnt = <<0>> /\ oc = <<>>
         /\ gh = [faulty |-> 0, image |-> <<>>, warns |-> 0, fin |-> 0, ok |-> TRUE, consts |-> {}, pushed |-> <<>>,
-                 vx |-> <<>>, moved |-> TRUE] /\ mode = "run"
+                 vx |-> <<>>, moved |-> TRUE, ann |-> <<>>, cons |-> <<>>, hid |-> 0] /\ mode = "run"
         /\ dir \in (IF Family = "directed" THEN 1..Len(Directed) ELSE {0})
 
 \* ---- the symbol table as the manual describes it (forward side; written without Adder / EnterSymbol) ---------------
@@ -177,7 +202,8 @@ DefinedOrDefining == "MM" \in DOMAIN s.mp.macros \/ \E i \in 1..Len(prog) : prog
 BodyAlpha == {St("EMIT", 1), St("LAB", 0), St("BAD", 0), St("EXITM", 0), St("IF", 1), St("IF", 0), St("ENDIF", 0)}
 AfterAlpha == {St("CALL", 0), St("IF", 1), St("IF", 0), St("ENDIF", 0), St("EMIT", 1), St("REPT", 2), St("ENDM", 0),
                St("PHASE", 64)}
-FamilyAlpha == CASE Family = "macro" -> AfterAlpha [] Family = "sym" -> SymAlpha [] Family = "all" -> Alpha \cup SymAlpha
+FamilyAlpha == CASE Family = "macro" -> AfterAlpha [] Family = "sym" -> SymAlpha [] Family = "exp" -> ExpAlpha
+                 [] Family = "all" -> Alpha \cup SymAlpha \cup ExpAlpha
                  [] OTHER -> Alpha
 NextSource ==
   IF Family = "directed" THEN (IF Len(prog) < Len(Directed[dir]) THEN {Directed[dir][Len(prog) + 1]} ELSE {NONE})
@@ -194,13 +220,18 @@ NextSource ==
        \cup (IF s.mp.outs = <<>> /\ prog # <<>> THEN {NONE} ELSE {})
 
 \* ---- the record a hook would write for the step from s to n ---------------------------------------------------
+GkClass(x, n, wm, wasif) ==
+  IF x.k \in {"IFDEF", "IFNDEF"} THEN x.k
+  ELSE IF ~n.ca.ifasm \/ n.mp.outs # <<>> \/ wm \/ wasif THEN "OTHER"
+  ELSE IF x.k \in {"EXPECT", "ENDEXPECT", "END"} THEN x.k ELSE "OTHER"
+GkArgs(x, gk) == CASE gk = "EXPECT" -> ExpNums(x.a) [] gk \in {"IFDEF", "IFNDEF"} -> <<"CX", "CX">> [] OTHER -> <<>>
 OpName(x) == CASE x.k = "EMIT" -> "DB" [] x.k = "LAB" -> "DB" [] x.k = "BAD" -> "BOGUS" [] x.k = "UERR" -> "ERROR"
                [] x.k = "UWARN" -> "WARNING" [] x.k = "CALL" -> "MM" [] x.k = "NONE" -> ""
                [] x.k \in {"LBX", "USE"} -> "DB" [] x.k = "SETC" -> "SET" [] OTHER -> x.k
 IsCall(x) == x.k = "CALL" /\ "MM" \in DOMAIN s.mp.macros
 CaClass(x, recpost) ==
   IF recpost THEN "OTHER"
-  ELSE CASE x.k = "IF" -> "IF" [] x.k = "ELSE" -> "ELSEIF" [] x.k = "ENDIF" -> "ENDIF"
+  ELSE CASE x.k \in {"IF", "IFDEF", "IFNDEF"} -> "IF" [] x.k = "ELSE" -> "ELSEIF" [] x.k = "ENDIF" -> "ENDIF"
          [] x.k = "EXITM" -> "EXITM" [] OTHER -> "OTHER"
 CbClass(x, n, wm, wasif) ==
   IF ~n.ca.ifasm \/ n.mp.outs # <<>> \/ wm \/ wasif THEN "OTHER"
@@ -225,11 +256,13 @@ LogOf(stk) == [i \in 1..Len(stk) |-> <<stk[i].st, IF stk[i].found THEN 1 ELSE 0,
 Obs(x, dp, em, n, dg, sy, ch, len) ==
   LET recpre == s.mp.outs # <<>>
       wm     == recpre \/ x.k \in {"MACRO", "REPT", "EXITM"} \/ IsCall(x)
-      wasif  == ~recpre /\ x.k \in {"IF", "ELSE", "ENDIF"}
+      wasif  == ~recpre /\ x.k \in {"IF", "ELSE", "ENDIF", "IFDEF", "IFNDEF"}
       sc     == ScClass(x, n, wm, wasif)
+      gk     == GkClass(x, n, wm, wasif)
   IN [pre |-> <<>>, nl |-> FALSE, tx |-> x, dp |-> dp, em |-> em, op |-> OpName(x),
       argc |-> CASE x.k \in {"IF", "REPT", "ORG", "PHASE", "EMIT", "LAB", "UERR", "UWARN", "LBX", "USE", "EQU", "SET",
-                              "SETC", "SECTION", "PUBLIC"} -> 1
+                              "SETC", "SECTION", "PUBLIC", "IFDEF", "IFNDEF"} -> 1
+                 [] x.k = "EXPECT" -> Len(ExpNums(x.a))
                  [] x.k \in {"PUSHV", "POPV", "NEXTENUM"} -> 2 [] x.k = "ENUM" -> 3
                  [] x.k = "ENDSECTION" -> IF x.a = 0 THEN 0 ELSE 1 [] OTHER -> 0,
       lab |-> LabelName(x) # "", wm |-> wm, ca |-> CaClass(x, n.mp.outs # <<>>), cb |-> CbClass(x, n, wm, wasif),
@@ -238,9 +271,12 @@ Obs(x, dp, em, n, dg, sy, ch, len) ==
       errs |-> n.d.err, seg |-> n.ab.act, pc |-> AB!Load(n.ab), ph |-> n.ab.ph[n.ab.act],
       phd |-> Len(n.ab.phStk[n.ab.act]), svd |-> Len(n.ab.saveStk), std |-> Len(n.ab.stStk), len |-> len,
       cpu |-> 81, dg |-> dg, ch |-> ch, sy |-> sy, psy |-> <<>>, lbn |-> LabelName(x), q |-> FALSE,
-      sed |-> Len(n.sy.stk), sc |-> sc, sa |-> ScArgs(x, sc)]
+      sed |-> Len(n.sy.stk), sc |-> sc, sa |-> ScArgs(x, sc), gk |-> gk, ga |-> GkArgs(x, gk)]
 
-DiagRec(d, num) == [num |-> num, cls |-> DG!Classify(Opts, num), errs |-> d.err, warns |-> d.warn]
+\* every message of the forward model goes through Diag.tla's WrXErrorPos: a number that is on the list d.exp is consumed
+\* (DG!Has / DG!RemoveFirst - written independently of DiagPos!Report, which StmtSucc uses)
+DiagRec(d, num) == [num |-> num, cls |-> IF DG!Has(d.exp, num) THEN "expected" ELSE DG!Classify(Opts, num),
+                    errs |-> IF DG!Has(d.exp, num) THEN 0 ELSE d.err, warns |-> IF DG!Has(d.exp, num) THEN 0 ELSE d.warn]
 Diag1(d, num) == <<DiagRec(d, num)>>
 Raise(d, num) == DG!WrXErrorPos(Opts, d, num)
 RECURSIVE RaiseSeq(_, _, _)
@@ -248,15 +284,32 @@ RECURSIVE RaiseSeq(_, _, _)
 RaiseSeq(d, nums, dg) ==
   IF nums = <<>> THEN [d |-> d, dg |-> dg] ELSE RaiseSeq(Raise(d, Head(nums)), Tail(nums), Append(dg, DiagRec(d, Head(nums))))
 
+RECURSIVE CountedSeq(_, _)
+\* how many of the messages nums, raised in this order, are errors that are not swallowed by the list
+CountedSeq(d, nums) ==
+  IF nums = <<>> THEN 0
+  ELSE (IF DG!Has(d.exp, Head(nums)) \/ Head(nums) < 1000 THEN 0 ELSE 1) + CountedSeq(Raise(d, Head(nums)), Tail(nums))
+RECURSIVE Reverse(_)
+Reverse(q) == IF q = <<>> THEN <<>> ELSE Append(Reverse(Tail(q)), Head(q))
+RECURSIVE FDrain(_, _, _)
+\* CodeENDEXPECT: "while (pExpectErrors) { unlink the head; WrXError(ErrNum_ExpectedError) }": [d, dg, n]
+\* (Diag.tla's Unmet takes Len(d.exp) turns whatever happens to the list on the way - not so when 2130 is announced)
+FDrain(d, dg, n) ==
+  IF d.exp = <<>> THEN [d |-> d, dg |-> dg, n |-> n]
+  ELSE LET d1 == [d EXCEPT !.exp = Tail(@)]
+       IN FDrain(Raise(d1, DG!NumExpectedError), Append(dg, DiagRec(d1, DG!NumExpectedError)),
+                 n + CountedSeq(d1, <<DG!NumExpectedError>>))
+
 \* ---- forward semantics of one delivered statement x (written from the manual / the C code, not from StmtSucc) ----
 \* result: [n (state after), dg, sy (symbol records), ch, len, faulty (errors raised), bytes];  oc0 = counts of the
 \* open REPT headers
 Res(n, dg, sy, ch, len, faulty, bytes) == [n |-> n, dg |-> dg, sy |-> sy, ch |-> ch, len |-> len, faulty |-> faulty, bytes |-> bytes]
 Quiet(n) == Res(n, <<>>, <<>>, <<>>, 0, 0, <<>>)
-Faulty(st, num) == Res([st EXCEPT !.d = Raise(st.d, num)], Diag1(st.d, num), <<>>, <<>>, 0, 1, <<>>)
+Faulty(st, num) == Res([st EXCEPT !.d = Raise(st.d, num)], Diag1(st.d, num), <<>>, <<>>, 0, CountedSeq(st.d, <<num>>), <<>>)
 \* a statement of the symbol table: new table, its records, the errors it raised (no code)
 SymDone(st, nsy, recs, errs) ==
-  LET r == RaiseSeq(st.d, errs, <<>>) IN Res([st EXCEPT !.sy = nsy, !.d = r.d], r.dg, recs, <<>>, 0, Len(errs), <<>>)
+  LET r == RaiseSeq(st.d, errs, <<>>)
+  IN Res([st EXCEPT !.sy = nsy, !.d = r.d], r.dg, recs, <<>>, 0, CountedSeq(st.d, errs), <<>>)
 \* LabelHandle, then the data statement: the byte is emitted even if the label was refused (LabelSurvivesError the
 \* other way round: the label's own error does not stop the instruction)
 DataLine(st, x, nb, val) ==
@@ -265,7 +318,7 @@ DataLine(st, x, nb, val) ==
       r  == RaiseSeq(st.d, lb.errs, <<>>)
       a0 == AB!Load(st.ab)
   IN Res([st EXCEPT !.ab = AB!MarkUsed(AB!Advance(st.ab, nb)), !.sy = lb.sy, !.d = r.d], r.dg, lb.recs,
-         <<[k |-> "E", seg |-> st.ab.act, addr |-> a0, n |-> nb, g |-> 1]>>, nb, Len(lb.errs),
+         <<[k |-> "E", seg |-> st.ab.act, addr |-> a0, n |-> nb, g |-> 1]>>, nb, CountedSeq(st.d, lb.errs),
          [j \in 1..nb |-> <<a0 + j - 1, val, x.id>>])
 
 ExecSym(st, x) ==
@@ -333,6 +386,9 @@ Exec1(st, x, pos, oc0) ==
                  [] OTHER            -> \* REPT_OutProcessor: queued iff selected and count > 0
                                         Quiet([st EXCEPT !.mp = IF asm /\ oc0[1] > 0 THEN PushTag(rest, BodyTag("REPT", o)) ELSE rest])
   ELSE CASE x.k = "IF"    -> Quiet([st EXCEPT !.ca = CA!DoIf(st.ca, x.a = 1)])
+         \* "IFDEF: true if the symbol has been defined so far" (one pass: what is in the table is defined)
+         [] x.k \in {"IFDEF", "IFNDEF"} ->
+                             Quiet([st EXCEPT !.ca = CA!DoIf(st.ca, (FFind(st.sy, "CX") # <<>>) = (x.k = "IFDEF"))])
          [] x.k = "ELSE"  -> LET c == CA!DoElse(st.ca) IN
                              IF c.errs > st.ca.errs THEN Faulty([st EXCEPT !.ca = [c EXCEPT !.errs = 0]], NumGeneric)
                              ELSE Quiet([st EXCEPT !.ca = c])
@@ -350,6 +406,14 @@ Exec1(st, x, pos, oc0) ==
                              ELSE Quiet(st)
          [] ~asm \/ x.k = "NONE" -> Quiet(st)                                   \* a skipped line has no effect
          [] x.k \in {"BAD", "ENDM", "CALL"} -> Faulty(st, DG!NumUnknownInstr)
+         \* EXPECT: "errors / warnings with these numbers are suppressed up to ENDEXPECT; nesting is not allowed";
+         \* ENDEXPECT: "an error for every announced message that did not occur"
+         [] x.k = "EXPECT" -> IF st.d.inexp THEN Faulty(st, DG!NumNoNestExpect)
+                              ELSE Quiet([st EXCEPT !.d = DG!CodeEXPECT(Opts, st.d, Reverse(ExpNums(x.a)))])
+         [] x.k = "ENDEXPECT" -> IF ~st.d.inexp THEN Faulty(st, DG!NumMissingEXPECT)
+                                 ELSE LET r == FDrain(st.d, <<>>, 0)
+                                      IN Res([st EXCEPT !.d = [r.d EXCEPT !.inexp = FALSE]], r.dg, <<>>, <<>>, 0, r.n, <<>>)
+         [] x.k = "END"   -> Quiet([st EXCEPT !.au.ended = TRUE])
          [] x.k = "UERR"  -> Res([st EXCEPT !.d = DG!UserERROR(Opts, st.d)], <<>>, <<>>, <<>>, 0, 1, <<>>)
          [] x.k = "UWARN" -> Quiet([st EXCEPT !.d = DG!UserWARNING(Opts, st.d)])
          [] x.k \in {"EMIT", "LAB", "LBX"} -> DataLine(st, x, IF x.k = "EMIT" THEN x.a ELSE 1, x.id)
@@ -365,24 +429,36 @@ Exec1(st, x, pos, oc0) ==
 RECURSIVE Popped(_)
 Popped(tags) == IF tags # <<>> /\ Head(tags).emp THEN 1 + Popped(Tail(tags)) ELSE 0
 
+Count(q, x) == Cardinality({i \in DOMAIN q : q[i] = x})
+HiddenNums(dg) == LET h == SelectSeq(dg, LAMBDA g : g.cls = "expected") IN [i \in DOMAIN h |-> h[i].num]
+
 Step ==
   /\ mode = "run" /\ l <= MaxSteps /\ dir' = dir
   /\ LET k    == Popped(s.mp.tags)
-         tags == PopEmpty(s.mp.tags)
-         c0   == SubSeq(cnt, k + 1, Len(cnt))
-     IN IF tags = <<>>
-        THEN \* InputEnd: AssembleFile_ExitPass reports what is still open (ClearStacks first: a warning per stack)
-             LET nums == (IF DOMAIN s.sy.stacks # {} THEN <<NumStackNotEmpty>> ELSE <<>>)
-                         \o (IF s.ca.stk # <<>> THEN <<DG!NumMissEndif>> ELSE <<>>)
+         tags == IF s.au.ended THEN <<>> ELSE PopEmpty(s.mp.tags)      \* END: ProcessFile drains the input tags
+         c0   == IF s.au.ended THEN <<>> ELSE SubSeq(cnt, k + 1, Len(cnt))
+     IN IF s.au.ended /\ NextSource # {NONE}
+        THEN \* what is written behind END (in the file, behind the body that held it) is read and never executed
+             \E y \in NextSource \ {NONE} :
+                /\ prog' = Append(prog, Line(y, Len(prog) + 1)) /\ UNCHANGED <<l, rec, s, cnt, oc, gh, mode>>
+        ELSE IF tags = <<>>
+        THEN \* InputEnd: AssembleFile_ExitPass reports what is still open: ClearStacks (a warning per stack), then
+             \* AsmErrPassExit (an EXPECT without ENDEXPECT; the list is dropped behind it), then IF / SAVE / SECTION
+             LET r1   == RaiseSeq(s.d, IF DOMAIN s.sy.stacks # {} THEN <<NumStackNotEmpty>> ELSE <<>>, <<>>)
+                 r2   == RaiseSeq(r1.d, IF s.d.inexp THEN <<DG!NumMissingENDEXPECT>> ELSE <<>>, r1.dg)
+                 nums == (IF s.ca.stk # <<>> THEN <<DG!NumMissEndif>> ELSE <<>>)
                          \o (IF s.ab.saveStk # <<>> THEN <<DG!NumNoRestoreFrame>> ELSE <<>>)
                          \o (IF s.sy.stk # <<>> THEN <<NumMissingEndSect>> ELSE <<>>)
-                 r    == RaiseSeq(s.d, nums, <<>>)
+                 r    == RaiseSeq([r2.d EXCEPT !.exp = <<>>], nums, r2.dg)
              IN /\ mode' = "done"
                 /\ s' = [s EXCEPT !.d = r.d, !.mp.tags = tags]
                 /\ gh' = [gh EXCEPT !.fin = (IF s.ca.stk # <<>> THEN 1 ELSE 0) + (IF s.ab.saveStk # <<>> THEN 1 ELSE 0)
-                                             + (IF s.sy.stk # <<>> THEN 1 ELSE 0),
+                                             + (IF s.sy.stk # <<>> THEN 1 ELSE 0)
+                                             + (IF s.d.inexp /\ ~DG!Has(r1.d.exp, DG!NumMissingENDEXPECT) THEN 1 ELSE 0),
                                     !.ok = @ /\ OpenConstructsAreReported(s.ca, s.ab, s.sy, r.dg)
-                                             /\ FoldDiags(Opts, s.d, r.dg, 1) = <<TRUE, r.d>>]
+                                             /\ ExpectEndsWithPass(s.d, r.dg)
+                                             /\ FoldDiagsExit(Opts, s.d, r.dg, 1, FALSE) = <<TRUE, r.d>>,
+                                    !.hid = @ + Len(HiddenNums(r.dg)), !.ann = <<>>, !.cons = <<>>]
                 /\ cnt' = c0 /\ UNCHANGED <<l, prog, rec, oc>>
         ELSE LET t == Head(tags) IN
              \E x \in (IF t.kind = "FILE" THEN {Line(y, IF y = NONE THEN 0 ELSE Len(prog) + 1) : y \in NextSource}
@@ -425,8 +501,20 @@ Step ==
                         /\ prog' = IF t.kind = "FILE" /\ x.k # "NONE" THEN Append(prog, x) ELSE prog
                         /\ gh' = [gh EXCEPT !.faulty = @ + r.faulty, !.image = @ \o r.bytes,
                                             !.ok = @ /\ Cardinality(nl1) = 1
-                                                     /\ n \in StmtSucc(Tx, NoRecs, Opts, s, e),
+                                                     /\ n \in StmtSucc(Tx, NoRecs, Opts, s, e)
+                                                     \* EndExpectReportsExactlyUnmet, by counting: one 2130 per
+                                                     \* announced number that has not been met (unless 2130 itself
+                                                     \* was announced: DrainIsSubjectToList)
+                                                     /\ (x.k = "ENDEXPECT" /\ live /\ st.d.inexp
+                                                         /\ Count(gh.ann, DG!NumExpectedError) = 0)
+                                                        => (Len(r.dg) = Len(gh.ann) - Len(gh.cons)
+                                                            /\ r.faulty = Len(r.dg)),
                                             !.consts = @ \cup newc, !.pushed = pushed2, !.vx = vx2,
+                                            !.hid = @ + Len(HiddenNums(r.dg)),
+                                            !.ann = IF x.k = "EXPECT" /\ live /\ ~st.d.inexp THEN ExpNums(x.a)
+                                                    ELSE IF x.k = "ENDEXPECT" /\ live /\ st.d.inexp THEN <<>> ELSE @,
+                                            !.cons = IF x.k \in {"EXPECT", "ENDEXPECT"} /\ live /\ (x.k = "EXPECT") = ~st.d.inexp
+                                                     THEN <<>> ELSE @ \o HiddenNums(r.dg),
                                             !.moved = @ /\ ((n.sy # st.sy \/ n.en # st.en) => live)]
                         /\ l' = l + 1 /\ mode' = mode
 
@@ -436,6 +524,18 @@ Next == Step \/ (mode = "done" /\ UNCHANGED vars)
 ForwardIsAllowed == gh.ok
 ErrCountIsFaultyExecuted == s.d.err = gh.faulty + gh.fin
 ChainMirrorsCounts == mode = "run" => (Len(cnt) = Len(s.mp.tags) /\ Len(oc) = Len(s.mp.outs))
+\* ExpectListIsHistory, declaratively: the list holds the numbers the open EXPECT named, each as often as it named it,
+\* less those that were consumed since (ghosts gh.ann / gh.cons: by counting, no list is walked); InExpect = an EXPECT
+\* is open; nothing is pending outside a block; what was consumed was never counted (Diag's ghost `taken`)
+AllNums == {1200, 1450, 2130, 2140, 2150, 2160}
+ExpectListIsAnnouncedMinusConsumed ==
+  mode = "run" =>
+    /\ \A x \in AllNums \cup {s.d.exp[i] : i \in DOMAIN s.d.exp} : Count(s.d.exp, x) = Count(gh.ann, x) - Count(gh.cons, x)
+    /\ s.d.inexp = (gh.ann # <<>>)
+    /\ (~s.d.inexp => s.d.exp = <<>>)
+HiddenIsNeverCounted == s.d.taken = gh.hid
+\* END: nothing is executed behind it
+EndIsFinal == s.au.ended => (l - 1 = Len(rec) /\ rec[Len(rec)].k = "END")
 \* every emitted byte comes from a data statement of the source text
 ImageIsData == \A i \in 1..Len(gh.image) : gh.image[i][3] \in 1..Len(prog)
                                            /\ prog[gh.image[i][3]].k \in {"EMIT", "LAB", "LBX", "USE"}
